@@ -10,7 +10,7 @@ from engine.absval import Int, Ptr, Zero
 from engine.common import need, AnalysisBroken, VERIF
 from props import tables as T
 
-NS = {'string': 0x10, 'boolean': 0x20, 'double': 0x40, 'integer': 0x80, 'bytes': 0x100, 'error': 0x2000}
+NS = {}          # kind -> next-state code of the decoder, filled from the code in run() (internal encoding)
 ERR_RANGE, ERR_FORMAT = 1, 2
 
 
@@ -119,6 +119,13 @@ def run(rep, tier):
         lay = C.lay
         # ---------- (a) token table
         tab = T.decoder_process_one(C, mod)
+        kinds_, errcode_ = T.next_state_kinds(mod, tab)
+        NS.clear()
+        NS.update({k: v for v, k in kinds_.items()})
+        NS['error'] = errcode_
+        enums_ = C._enums()
+        global ERR_RANGE, ERR_FORMAT
+        ERR_RANGE, ERR_FORMAT = enums_['BINSON_ERROR_RANGE'], enums_['BINSON_ERROR_FORMAT']
         for b in range(256):
             key = '0x%02x' % b
             s = sp['tokens'].get(key)
